@@ -29,7 +29,9 @@ func H11_traces() {
 	up.ids = append(up.ids, &mwIdent{format: mwKeyFormat, blob: []byte{'k', 1}, comment: "k"})
 	upc := cert("up", vChoose(2, "up-decodes") == 1)
 	up.ids = append(up.ids, &mwIdent{format: mwCertFormat, blob: mwCertMarshal(upc), comment: "c"})
-	if vChoose(2, "locked") == 1 {
+	lockedFirst := vChoose(2, "locked") == 1
+	vFact("locked-first", lockedFirst)
+	if lockedFirst {
 		s.locked = true
 		up.locked = true
 		up.pass = []byte("p")
